@@ -332,6 +332,8 @@ def _locate_droplets_in_mask_cylindrical(mask: ScalarField) -> Emulsion:
     # simply locate droplets in the mask
     droplets = _locate_droplets_in_mask_cylindrical_single(mask.grid, mask.data)
 
+    # filter overlapping droplets
+    droplets.remove_overlapping()
     return droplets
 
 
